@@ -112,6 +112,9 @@ def program(x):
         enum_attrs = ['#[strum(serialize_all = "%s")]' % shape]
     elif rule == "lone_parse_err":
         enum_attrs = ["#[strum(%s)]" % enum_kw_text(kw)]
+        if shape.startswith("with_default"):
+            dv = ["    #[strum(default)]", "    Other(String),"]
+            ok_variants = ([dv] + ok_variants) if shape.endswith("first") else (ok_variants + [dv])
     elif rule == "prop_literal":
         lit = {"float": "1.5", "char": "'c'", "bytestr": 'b"x"', "byte": "b'x'"}[shape]
         bad = ["    #[strum(props(a = %s))]" % lit, "    Bad,"]
